@@ -265,7 +265,8 @@ def gen_flags(src, inplace):
     if inplace is True or (inplace is None and src.chance(1, 3)):
         k["_inplace"] = True
     elif src.chance(1, 10):
-        k["_inplace"] = False
+        # "not in place", also in the spellings an optional flag passed straight through arrives in
+        k["_inplace"] = src.pick([False, False, None, 0])
     if src.chance(1, 12):
         k["_if"] = src.chance(1, 2)
     return k
